@@ -5,8 +5,10 @@
     tzl.at    <dump> t1,t2,…        -> o<off>:<dst> | err                 (lookup by instant)
     tzl.loc   <dump> ℓ1,ℓ2,…        -> s<off> | a<off1>/<off2> | n        (lookup by wall clock)
     tzl.cache <dump> u<t>|l<ℓ>,…    -> s<off> | a<o1>/<o2> | n | panic    (Cache::offset glue)
+              … e<ℓ>|L<ℓ>           -> <instant>/<off> | n | panic  (Local.from_local_datetime(ℓ).earliest() / .latest())
     tzl.wall  <dump> ℓ1,ℓ2,…        -> instants of Spec.wallSet separated by `/` (or `-`)
     tzl.sep   <dump>                -> 1 | 0   (Spec.Zone.zoneSeparatedB = WellSeparated ∧ JoinSeparated)
+    tzl.yearly <dump>               -> <ruleYearlyB><insideYearB> (two 0/1 digits; `-` if the rule is not alternate-time)
 -/
 import Chrono.Drv.Util
 import Chrono.Model.TzLookup
@@ -110,6 +112,11 @@ def showMapped (m : Mapped Int) : String :=
   | .single o => s!"s{o}"
   | .ambiguous a b => s!"a{a}/{b}"
 
+def showInstant (d : Option (Int × Int)) : String :=
+  match d with
+  | none => "n"
+  | some (t, o) => s!"{t}/{o}"
+
 def answers (qs : String) (f : List Char → String) : String :=
   ",".intercalate ((splitC ',' qs.toList).map f)
 
@@ -136,6 +143,10 @@ def handle (op : String) (args : List String) : Option String :=
               | .ok (.single o) => s!"s{o}"
               | _ => "panic")
           | 'l' :: r => (intC r).elim bad (fun t => showRes showMapped (cache_offset z t true))
+          | 'e' :: r => (intC r).elim bad (fun t =>
+              showRes (fun m => showInstant m.earliest) (local_from_local_datetime z t))
+          | 'L' :: r => (intC r).elim bad (fun t =>
+              showRes (fun m => showInstant m.latest) (local_from_local_datetime z t))
           | _ => bad))
   | "tzl.wall", [a, b, c, d, qs] => some (match parseZone a b c d with
       | none => bad
@@ -147,6 +158,11 @@ def handle (op : String) (args : List String) : Option String :=
   | "tzl.sep", [a, b, c, d] => some (match parseZone a b c d with
       | none => bad
       | some z => showBool (Spec.Zone.zoneSeparatedB z))
+  | "tzl.yearly", [a, b, c, d] => some (match parseZone a b c d with
+      | none => bad
+      | some z => match z.rule with
+        | some (.alt r) => showBool (Spec.Zone.ruleYearlyB r) ++ showBool (Spec.Zone.insideYearB r)
+        | _ => "-")
   | "tzl.dump", [a, b, c, d] => some (match parseZone a b c d with
       | none => bad
       | some z => z.dump)
